@@ -52,6 +52,7 @@ type Entry struct {
 	RepT    time.Duration
 	// OBSERVE_SEQNO replies
 	ObsUUID, ObsPersist uint64
+	ObsFailoverForm     bool // the OBSERVE_SEQNO reply used the hard-failover form
 }
 
 type FailoverEntry struct {
@@ -107,9 +108,12 @@ type Cluster struct {
 	High     map[uint16]uint64
 	Failover map[uint16][]FailoverEntry
 	Persist  map[[2]int][2]uint64 // (vb, server) -> (uuid, persistSeq)
-	streams  map[uint16]*Stream
-	reqs     []StreamReq
-	closed   bool
+	// ObserveFailoverForm: a poll that names another vbUUID than the copy's current one is answered in the hard-failover
+	// form (as a node does when the asked vbUUID is an older entry of its failover log)
+	ObserveFailoverForm bool
+	streams             map[uint16]*Stream
+	reqs                []StreamReq
+	closed              bool
 
 	// Version is the implementationVersion served under /pools; BucketType / StorageBackend are served under
 	// /pools/default/buckets/b (Layer C: the real dcp.NewDcp bootstraps over HTTP).
@@ -582,12 +586,26 @@ func (n *Node) handle(cn *Conn, p *memd.Packet, e *Entry) {
 		}
 		st := c.Persist[[2]int{int(p.Vbucket), n.Idx}]
 		e.ObsUUID, e.ObsPersist = st[0], st[1]
+		failoverForm := c.ObserveFailoverForm
 		c.mu.Unlock()
 		v := make([]byte, 27)
 		binary.BigEndian.PutUint16(v[1:], p.Vbucket)
 		binary.BigEndian.PutUint64(v[3:], st[0])
 		binary.BigEndian.PutUint64(v[11:], st[1])
 		binary.BigEndian.PutUint64(v[19:], st[1])
+		if asked := obsAsked(p.Value); failoverForm && asked != 0 && st[0] != 0 && asked != st[0] {
+			// the poll still names an older history branch of this copy: the "hard failover" answer form (format 1):
+			// the copy's state on its NEW branch, plus the branch that was asked and the last seqno the copy has of it
+			v = append(v, make([]byte, 16)...)
+			v[0] = 1
+			binary.BigEndian.PutUint64(v[27:], asked)
+			last := st[1]
+			if last > 0 {
+				last--
+			}
+			binary.BigEndian.PutUint64(v[35:], last)
+			e.ObsFailoverForm = true
+		}
 		res.Value = v
 	case memd.CmdSet, memd.CmdAdd, memd.CmdReplace:
 		c.kvSet(p, res)
@@ -806,4 +824,12 @@ func (c *Cluster) KVKeys() []string {
 	}
 	sort.Strings(ks)
 	return ks
+}
+
+// obsAsked: the vbUUID an OBSERVE_SEQNO request names (8 bytes of value).
+func obsAsked(v []byte) uint64 {
+	if len(v) < 8 {
+		return 0
+	}
+	return binary.BigEndian.Uint64(v)
 }
